@@ -68,7 +68,9 @@ def evaluate(arms, decisions, rewards, preds, train_stats, stat, nbhd, start):
             out[p].append(rewards[i])
         else:
             row = nbhd[start + i] if nbhd is not None and start + i < len(nbhd) else None
-            if row and row.get(p):
+            # "the predicted arm's neighbourhood statistic" exists only if that arm has observations in the row's
+            # neighbourhood: an empty or zero-count record is no statistic and the training statistic applies
+            if row and row.get(p) and row[p].get("count", 0) > 0:
                 out[p].append(row[p][stat])
             else:
                 out[p].append(train_stats[p][stat])
